@@ -39,6 +39,16 @@ func (vs Vols) at(acc, asset string) *Vol {
 	return v
 }
 
+// Balance returns input-output of (acc, asset), 0 when absent.
+func (vs Vols) Balance(acc, asset string) *big.Int {
+	if m := vs[acc]; m != nil {
+		if v := m[asset]; v != nil {
+			return v.Balance()
+		}
+	}
+	return new(big.Int)
+}
+
 func (vs Vols) applyPosting(p ledger.Posting) {
 	vs.at(p.Source, p.Asset).Out.Add(vs.at(p.Source, p.Asset).Out, p.Amount)
 	vs.at(p.Destination, p.Asset).In.Add(vs.at(p.Destination, p.Asset).In, p.Amount)
